@@ -164,7 +164,7 @@ theorem sub_ok_fields {b b' : Batch} {i j : Nat} (h : b.sub i j = .ok b') :
   · unfold Batch.sub at h
     simp only [hc, if_false] at h
     have hsp : b.split = [] → (if b.split.length ≠ 0 then
-        List.foldl (fun acc p => match lookup b.split (keyOf p) with
+        List.foldl (fun acc p => if (p == none) = true then acc else match lookup b.split (keyOf p) with
           | some r => if (lookup acc (keyOf p)).isSome = true then acc else acc ++ [(keyOf p, r)]
           | none => acc) [] (List.drop i (List.take j b.pos)) else []) = [] := by
       intro he; simp [he]
